@@ -447,6 +447,10 @@ func optimizerInlining(c *Ctx, g *load.G, rule string) {
 	_, _, okClean, cleanDetail := optimizerRemovalGuard(c, g)
 	r.Check(okSet && okInit && okClean, rule, "G.ast.optimizer:reference-bookkeeping", "", "ast/ast_optimize.go", "uses/used-by recorded for every reference; a removed rule is deleted from exactly its entries",
 		fmt.Sprintf("both-directions-recorded=%t %s cleanup-exact=%t %s: rules still referenced can be removed (or unused ones kept), and a rule whose references are not all recorded passes for a leaf and is inlined although it still references rules (without end if it references itself)", okInit, initWhy, okClean, cleanDetail))
+	// (6) the uses-map loses an entry only together with the reference it records
+	okKeep, keepWhy := optimizerUsesEntriesOutliveNothing(c, g)
+	r.Check(okKeep, rule, "G.ast.optimizer:uses-entries-removed-only-with-the-reference", "", "ast/ast_optimize.go", "an entry of ruleUsesRules is deleted only where the reference is replaced by a clone, or where the referring rule is removed on the same path",
+		keepWhy+": a rule that still contains the reference then passes for a leaf - a rule that refers to itself is inlined into itself without end (pigeon dies with a stack overflow)")
 }
 
 // elementwiseCloners: the functions of package ast that return, for a list of expressions, a new list holding
@@ -602,4 +606,47 @@ func firstArgOf(v string) string {
 		}
 	}
 	return ""
+}
+
+// optimizerUsesEntriesOutliveNothing: on every normalised path of the optimizer's visitor and of optimizeRule (helpers
+// expanded) that deletes from the map that says which rules a rule refers to (the map the inlining guard consults),
+// the reference goes too: the path returns a clone in place of the reference (inlining), or removes the referring
+// rule from the grammar.
+func optimizerUsesEntriesOutliveNothing(c *Ctx, g *load.G) (bool, string) {
+	ap := g.Pkg("ast")
+	var bad []string
+	n := 0
+	for _, name := range []string{"optimize", "optimizeRule"} {
+		fd := load.FuncDecl(ap, "grammarOptimizer", name)
+		if fd == nil {
+			return false, "grammarOptimizer." + name + " not found"
+		}
+		recv := recvName(fd)
+		uses := recv + ".ruleUsesRules"
+		for _, p := range c.astNorm().normPaths(fd) {
+			deletes := false
+			for _, e := range p {
+				if e.Kind == "call" && strings.HasPrefix(e.Text, "delete("+uses) {
+					deletes = true
+				}
+			}
+			if !deletes {
+				continue
+			}
+			n++
+			// the clone stands where the reference stood: returned by optimizeRule, or - where the visitor's paths
+			// include those of optimizeRule - stored into the slot the reference occupied
+			replaced := p.evIndex("call", 0, func(s string) bool { return strings.HasPrefix(s, "cloneExpr(") }) >= 0
+			removed := p.evIndex("set", 0, func(s string) bool {
+				return strings.Contains(s, ".Rules=append(") && strings.Contains(s, ".Rules[:") && strings.Contains(s, "+1:]...)")
+			}) >= 0
+			if !replaced && !removed {
+				bad = append(bad, name+" deletes an entry of ruleUsesRules on a path that neither replaces the reference by a clone nor removes the referring rule ["+abbreviate(strings.Join(p.facts(), " "))+"]")
+			}
+		}
+	}
+	if n == 0 {
+		return false, "no path deletes from ruleUsesRules: the inlining path was not found"
+	}
+	return len(bad) == 0, strings.Join(uniq(bad), "; ")
 }
